@@ -123,6 +123,15 @@ def gen_case(run_seed: int, tier: str) -> dict[str, Any]:
     if envr.random() < 0.05 and "/" in docs[0]:
         # the file is also reachable through a symlinked parent directory
         tree["ldir"] = {"l": os.path.dirname(docs[0])}
+    # the environment is an input too: variables the code under test reads (found in its source)
+    # are set in some workloads - a directory on another device for names that look like a place,
+    # a switch value otherwise
+    env_spec: dict[str, str] = {}
+    names_env = env_names()
+    ev = sub_rng(run_seed, "env")
+    if names_env and ev.random() < 0.35:
+        for n_ in ev.sample(names_env, ev.randint(1, min(3, len(names_env)))):
+            env_spec[n_] = "dir" if any(t in n_.upper() for t in ("DIR", "TMP", "TEMP", "PATH", "CACHE", "HOME")) else ev.choice(["1", "0", "true", ""])
     ident = sub_rng(run_seed, "identity")
     euid = ident.choice([None] * 5 + [0, 1000, 65534])
     if euid is not None and ident.random() < 0.6:
@@ -192,6 +201,7 @@ def gen_case(run_seed: int, tier: str) -> dict[str, Any]:
         "uid_seed": k.getrandbits(32),
         "euid": euid,
         "low_disk": low_disk,
+        "env": env_spec,
         "sweep_seed": k.getrandbits(32),
         # some workloads start from files that are already formatted for this very invocation
         # (the "nothing to change" path of an implementation is a path too)
@@ -324,7 +334,7 @@ class Exec:
 
     def run(self) -> simproc.ProcResult:
         stdin = j2b(self.case["inv"].get("stdin")) or b""
-        res = simproc.run_process(self.ip, make_fn(self.case["inv"]), stdin, cwd=self.root, uid_seed=self.case["uid_seed"])
+        res = simproc.run_process(self.ip, make_fn(self.case["inv"]), stdin, cwd=self.root, uid_seed=self.case["uid_seed"], env=getattr(self, "env", None))
         if self.new is not None:
             self.check_state("end" if not res.crashed else "post-crash", None)
         return res
@@ -524,6 +534,18 @@ def run_case(env: Env, case: dict[str, Any], want_trace: bool = False) -> dict[s
         shutil.rmtree(outer, ignore_errors=True)
 
 
+_ENV_NAMES: list[str] | None = None
+
+
+def env_names() -> list[str]:
+    global _ENV_NAMES
+    if _ENV_NAMES is None:
+        from .core import repo_src
+
+        _ENV_NAMES = simproc.discovered_env_names(repo_src())
+    return _ENV_NAMES
+
+
 def _exec_once(case: dict[str, Any], scratch: str, faults: list[dict[str, Any]], knobs: dict[str, Any], new: dict[str, bytes | None] | None) -> tuple[Exec, simproc.ProcResult]:
     if case.get("euid") is not None:
         knobs = dict(knobs, euid=case["euid"])
@@ -533,7 +555,16 @@ def _exec_once(case: dict[str, Any], scratch: str, faults: list[dict[str, Any]],
     if mounts:
         knobs = dict(knobs, mounts=mounts)
     ex = Exec(case, os.path.join(scratch, "t"), faults, knobs, new)
-    res = ex.run()
+    stage = None
+    if case.get("env"):
+        # "another device": the scratch tree is on /dev/shm, the system temp directory is not
+        stage = tempfile.mkdtemp(prefix="dst-stage-" + os.environ.get("VERIF_RUN_TAG", "x") + "-", dir=tempfile.gettempdir())
+        ex.env = {k_: (stage if v_ == "dir" else v_) for k_, v_ in case["env"].items()}
+    try:
+        res = ex.run()
+    finally:
+        if stage is not None:
+            shutil.rmtree(stage, ignore_errors=True)
     return ex, res
 
 
